@@ -43,6 +43,30 @@ theorem logarithm_ok_iff (inner : PyVal ℝ) (b : ℝ) (e : Expr ℝ) :
       ∃ u : Expr ℝ, inner = .expr u ∧ 0 < b ∧ b ≠ 1 ∧ e = mkLog u b :=
   mkLogarithmChecked_ok_iff inner b e
 
+/-- acceptance of a base never depends on the operand (in particular not on a parameter the operand
+carries itself): whether `Logarithm(u, b)` is accepted is the same for every expression operand -/
+theorem logarithm_accepts_independent_of_operand (u u' : Expr ℝ) (b : ℝ) :
+    (∃ e, mkLogarithmChecked realNum (.expr u) b = .ok e) ↔
+      (∃ e', mkLogarithmChecked realNum (.expr u') b = .ok e') := by
+  constructor
+  · rintro ⟨e, h⟩
+    obtain ⟨_, _, hb, hb1, _⟩ := (logarithm_ok_iff _ b e).mp h
+    exact ⟨mkLog u' b, (logarithm_ok_iff _ b _).mpr ⟨u', rfl, hb, hb1, rfl⟩⟩
+  · rintro ⟨e, h⟩
+    obtain ⟨_, _, hb, hb1, _⟩ := (logarithm_ok_iff _ b e).mp h
+    exact ⟨mkLog u b, (logarithm_ok_iff _ b _).mpr ⟨u, rfl, hb, hb1, rfl⟩⟩
+
+/-- base one is rejected whatever the operand — also when the operand is an `Exponential` of base one
+(the shape of seeded change C16r11) -/
+theorem logarithm_base_one_rejected (u : Expr ℝ) (e : Expr ℝ) :
+    mkLogarithmChecked realNum (.expr u) 1 ≠ .ok e := by
+  intro h
+  obtain ⟨_, _, _, hb1, _⟩ := (logarithm_ok_iff _ 1 e).mp h
+  exact hb1 rfl
+
+example (v : Expr ℝ) (e : Expr ℝ) :
+    mkLogarithmChecked realNum (.expr (mkExp v 1)) 1 ≠ .ok e := logarithm_base_one_rejected _ e
+
 /-- `Variable(name)` : a non-empty name made of word characters only (any number instance) -/
 theorem variable_ok_iff {α : Type} (isWord : Char → Bool) (name : String) (e : Expr α) :
     mkVariableChecked isWord name = .ok e ↔
